@@ -305,13 +305,22 @@ def range_full(fn, du, site):
     return None
 
 
+CURRENT_F = None   # set by the property modules: lets a discharge resolve a helper's parameter at its call sites
+
+
 def _is_size(fn, du, op, depth=0):
-    """does the operand derive only from collection sizes (len/count/capacity), literals and sums of such?"""
+    """does the operand derive only from collection sizes (len/count/capacity), literals and sums of such?  A parameter of a
+    helper function is a size when every caller passes one."""
     c = mir.op_const(op)
     if c is not None:
         return "int" in c and 0 <= c["int"] < (1 << 32)
-    for o in mir.provenance(fn, du, op, transparent_extra=("std::option::Option::<T>::unwrap_or", "std::option::Option::<T>::get_or_insert",
-                                                            "std::option::Option::<T>::unwrap_or_default")):
+    EXTRA = ("std::option::Option::<T>::unwrap_or", "std::option::Option::<T>::get_or_insert", "std::option::Option::<T>::unwrap_or_default")
+    origins = mir.provenance(fn, du, op, transparent_extra=EXTRA)
+    if CURRENT_F is not None and any(o.kind == "arg" for o in origins) and fn.get("def_kind") != "Closure":
+        from .common import outer_origins, callers_index
+        if callers_index(CURRENT_F).get(fn["path"]):
+            origins = [o for _, o in outer_origins(CURRENT_F, fn, op, depth=2, transparent_extra=EXTRA)]
+    for o in origins:
         if o.kind == "call":
             n = o.callee
             if n.endswith("::len") or n.endswith("::count") or n.endswith("::capacity"):
